@@ -97,6 +97,7 @@ func Main(id string, fn func(*Env)) {
 	w.Flush()
 	f.Close()
 }
+
 // ---- small helpers for printing Coq terms ----
 
 func CoqBool(b bool) string {
